@@ -3,7 +3,7 @@ import json, re
 from .. import core
 from . import stackcommon as sc
 
-EMITS = set("S V Q G A P PM R X E B ST CB TXT RACE VR NS STORM STALL PSPLIT".split())
+EMITS = set("S V Q G A P PM R X E B ST CB TXT RACE VR NS STORM STORMA STALL PSPLIT".split())
 
 ADV_SETUP = ["wrongcode", "wrongproof", "noproof", "a0", "aN", "a2N", "aempty", "m5first", "start", "m3wrong", "m5zerokey",
              "m5randkey", "badstep", "badmethod", "garbage", "aNforged", "a0forged", "aemptyforged", "wrongcodezero", "m5zeroempty", "m5emptyhkdf"]
@@ -519,6 +519,11 @@ def gen_c09(rng, tier):
             ops.append("G:a:" + ",".join(rng.sample(pool, rng.randrange(1, 6))))
         ops.append("A:a")
         mk(cases, "rw", ops, opts="nacc=20")
+    # the controller keeps fetching the whole attribute database (an answer of many socket writes) while the application changes
+    # a characteristic it subscribed to: every answer must be readable (no EVENT inside it), every change notified once, in order
+    for i in range(2 if tier == "quick" else 8):
+        mk(cases, "read-while-changing", ["N:p", "S:p:c0:ok", "N:c0", "V:c0:c0:ok", "P:c0:4.14:-:1", "STORMA:c0:%d" % (3000 if tier == "quick" else 8000)], opts="nacc=30")
+        cases[-1]["noretry"] = True
     # two controllers reading at the same time (a database of many chunks against long /characteristics answers)
     for i in range(2 if tier == "quick" else 12):
         mk(cases, "race", ["N:a", "S:a:c0:ok", "V:a:c0:ok", "N:b", "V:b:c0:ok", "RACE:a:b:%d" % (40 if tier == "quick" else 150)], opts="nacc=%d" % rng.choice([24, 40]))
@@ -539,6 +544,10 @@ def oracle_c09(c, obs):
         tok = None
         if p[0] in EMITS:
             _, tok = next(it)
+        if p[0] == "P" and ":".join(p[3:-1]) == "-":
+            if not tok.startswith("P=204"):
+                return "a subscription was not accepted: %s -> %s" % (op[:60], tok)
+            continue
         if p[0] in ("P", "L"):
             cid = p[2] if p[0] == "P" else p[1]
             vt = ":".join(p[3:-1]) if p[0] == "P" else ":".join(p[2:])
@@ -578,6 +587,8 @@ def oracle_c09(c, obs):
                 else:
                     if not e.endswith("!-70402"):
                         return "missing id %s is not answered with status -70402: %s" % (i, e)
+        if p[0] == "STORMA" and tok != "STORMA=ok":
+            return "the controller kept fetching /accessories while the application changed a characteristic it subscribed to: " + tok[7:].replace("-", " ")
         if p[0] == "RACE" and tok != "RACE=ok":
             return "two controllers reading at the same time: an answer was not what a controller reading alone gets (%s)" % tok[5:80]
         if p[0] == "A":
